@@ -72,11 +72,20 @@ func (e *Engine) runBounded(prop, tier string) []BoundedResult {
 		e.drivers = loadDrivers(e.verif)
 	}
 	var out []BoundedResult
+	seen := map[string]bool{}
 	for i := range e.drivers {
 		d := &e.drivers[i]
-		if d.BoundedFor != prop {
+		if seen[d.File+"|"+d.Test] {
 			continue
 		}
+		if d.BoundedFor != prop {
+			// thorough tier: every replay driver registered for a unit of this property is also run as a bounded
+			// cross-check of the real code (a driver that fails here has a concrete failing input)
+			if tier != "thorough" || d.BoundedFor != "" || !e.driverServes(d, prop) {
+				continue
+			}
+		}
+		seen[d.File+"|"+d.Test] = true
 		tmp, err := os.MkdirTemp("", "gzv-bounded-")
 		if err != nil {
 			continue
@@ -85,6 +94,10 @@ func (e *Engine) runBounded(prop, tier string) []BoundedResult {
 		rr := runDriver(e.repo, e.verif, d, map[string]string{"TIER": tier}, tmp)
 		os.RemoveAll(tmp)
 		br := BoundedResult{Name: d.Test, Covers: d.Covers, Bound: d.Bound, Cmd: rr.Cmd, WallS: time.Since(t0).Seconds(), replay: rr}
+		if d.BoundedFor != prop {
+			br.Covers = "cross-check (thorough tier): the replay driver of these units run on the current tree without model values"
+			br.Bound = "the driver's fixed grids and fixed-seed histories (see its source under /verif/replay/" + d.File + ")"
+		}
 		for _, l := range strings.Split(rr.Output, "\n") {
 			if i := strings.Index(l, "GZV-BOUNDED"); i >= 0 {
 				br.Stats = strings.TrimSpace(l[i+len("GZV-BOUNDED"):])
@@ -577,4 +590,18 @@ func cmdDrivers(args []string) int {
 		}
 	}
 	return rc
+}
+
+// driverServes: the driver is registered for at least one obligation-name prefix of a unit of the property.
+func (e *Engine) driverServes(d *replayDriver, prop string) bool {
+	re, err := regexp.Compile(d.Match)
+	if err != nil {
+		return false
+	}
+	for _, c := range e.unitsFor(prop) {
+		if re.MatchString(shortKey(c.Key)+"/post#0") || re.MatchString(c.Key+"/post#0") {
+			return true
+		}
+	}
+	return false
 }
